@@ -223,6 +223,13 @@ def entries(Md, solve=True):
                   [float(t) for t in AD.compile_hessian(Md["e1"], V)(pt).reshape(-1)]
     out["hess_param_entry"] = [float(t) for t in AD.compile_hessian(Md["e6"], V2)(pt2).reshape(-1)] + \
                               [float(t) for t in AD.compile_hessian(Md["e6"], [y, x])(pt2).reshape(-1)]
+    # a Parameter whose NAME coincides with a decision variable's (a price "x" next to a quantity "x" is legal): its bare occurrence
+    # as a derivative entry reads THIS model's parameter
+    from optyx import Parameter as _Pn
+    qn = _Pn("x", float(p.value) + 0.5)
+    e7 = qn * y + x * x
+    out["param_named_like_a_variable"] = [float(t) for t in AD.compile_jacobian([e7], V2)(pt2).reshape(-1)] + \
+                                         [float(t) for t in C.compile_gradient(e7, V2)(pt2)] + [float(C.compile_expression(qn, V2)(pt2))]
     out["dparam"] = float(C.compile_expression(AD.gradient(p * x, x), V)(pt))
     A = Md["A"]
     V4 = [A[i, j] for i in range(2) for j in range(3)] + [t for t in Md["e4"].get_variables() if not t.name.startswith("A[")]
